@@ -64,12 +64,13 @@ class Slot:
     optional: bool = False
     value: tuple = ("N",)  # ("N",) | ("X",) | ("T", dtcode, dims)
     meta: bool = False  # a non-optional HINT carries further metadata after the dltype annotation
+    pspell: str = "-"  # how a PLAIN position is written in a signature: `-` int, `-a` Annotated[int, 'count'], `-u` `int | str`, `-o` `int | None`
     spell: str = "1"  # how an optional HINT is written in a signature: 1 `T | None`, 4 Optional[T], 5 `None | T`, 7 Optional[Optional[T]]
 
     def spec(self, hint: bool = False) -> str:
         """`hint` = the spec is rendered as a type hint of a signature (CALL lines), not as an annotation object (CTX lines)"""
         if self.cls is None:
-            return "-"
+            return self.pspell if hint else "-"
         plain = "A" if (hint and self.meta) else 0   # A = `Annotated[base, ann, 'unit: px']` (further metadata after the annotation)
         return f"{self.cls},{(self.spell if hint else 1) if self.optional else plain},{'<None>' if self.shape is None else self.shape}"
 
@@ -135,7 +136,7 @@ class Ctx:
             items.append("AL")
         return "\t".join(["CALL", f"{kind}:{style}", prov, self.scope_str(), *items])
 
-    def rand_call(self, rng, kind: str | None = None, styles=("pos", "kw", "mixed", "fwd", "kwonly", "posonly"), omit_p: float = 0.3) -> str:
+    def rand_call(self, rng, kind: str | None = None, styles=("pos", "kw", "kwrev", "mixed", "fwd", "kwonly", "posonly"), omit_p: float = 0.3) -> str:
         """the context as a call with every feature of the call protocol drawn at random: function or method (whose instance is
         the scope provider: "self"), call style (a method also through the class with the receiver by keyword), trailing
         parameters left at their default value or passed although they have one"""
@@ -285,7 +286,7 @@ def gen_ctx(rng, max_tensors=4, tuple_p=0.2, ret_p=0.3, provider_p=0.3, libs=(0,
         slots = []
         for _ in range(k):
             if rng.random() < 0.2:
-                slots.append(Slot(None, None, False, rng.choice([("X",), ("N",), ("T", dt(0, "float32"), (1, 2)), ("XT",), ("XA",), ("XE",)])))
+                slots.append(Slot(None, None, False, rng.choice([("X",), ("N",), ("T", dt(0, "float32"), (1, 2)), ("XT",), ("XA",), ("XE",)]), pspell=rng.choice(["-", "-", "-a", "-u", "-o"])))
             else:
                 s, cn = mk_slot()
                 slots.append(s)
